@@ -314,6 +314,7 @@ def c11(tier, seed, replay=None):
                 d["api"] = (i + seed) % 6
                 d["builtin"] = b
                 d["jac"] = False
+                d["intcot"] = (i + seed) % 5 == 2
                 out.append(d)
         return out
     models = [dict(N=4, MaxAr=2, KindMode="edge")] if quick else [dict(N=4, MaxAr=3, KindMode="edge"), dict(N=5, MaxAr=2, KindMode="node")]
